@@ -549,10 +549,18 @@ func (c *Client) closeWithError(err error) {
 	c.mailbox = nil
 	pendingCmds := c.pendingCmds
 	c.pendingCmds = nil
+	contReqs := c.contReqs
+	c.contReqs = nil
 	c.mutex.Unlock()
 
 	for _, cmd := range pendingCmds {
 		c.completeCommand(cmd, err)
+	}
+
+	// The connection is gone: no continuation request will ever be answered.
+	// This includes requests registered after their command was completed.
+	for _, contReq := range contReqs {
+		contReq.Cancel(err)
 	}
 }
 
